@@ -4,7 +4,7 @@
 //! of the agent (command lane `ctl`, the command is the op index) through the downlink handle.
 
 use crate::drive::{drain, nz, snap_of, Cfg, Rec, Sys};
-use crate::model::{Cb, DOp, Kind, Write};
+use crate::model::{Cb, Ctl, DOp, Kind, Write};
 use parking_lot::Mutex;
 use std::collections::HashMap;
 use std::sync::atomic::AtomicU64;
@@ -172,8 +172,23 @@ impl DlLifecycle {
         let sh = self.shared.clone();
         let idx = *value as usize;
         context.effect(move || {
-            let Some(DOp::W(w)) = sh.ops.get(idx).copied() else {
-                return;
+            let w = match sh.ops.get(idx).copied() {
+                Some(DOp::W(w)) => w,
+                Some(DOp::C(Ctl::DropWriters)) => {
+                    *sh.vhandle.lock() = None;
+                    *sh.mhandle.lock() = None;
+                    return;
+                }
+                Some(DOp::C(Ctl::Stop)) => {
+                    if let Some(h) = sh.vhandle.lock().as_mut() {
+                        h.stop();
+                    }
+                    if let Some(h) = sh.mhandle.lock().as_mut() {
+                        h.stop();
+                    }
+                    return;
+                }
+                _ => return,
             };
             let ok = match w {
                 Write::Set(v) => match sh.vhandle.lock().as_mut() {
@@ -291,6 +306,15 @@ impl Sys for HostedSys {
 
     fn local_write(&mut self, idx: usize, _w: &Write) {
         self.sim.remotes[0].send("ctl", Req::Command(idx.to_string().into_bytes()));
+    }
+
+    fn control(&mut self, idx: usize, c: &Ctl) {
+        match c {
+            Ctl::DropWriters | Ctl::Stop => {
+                self.sim.remotes[0].send("ctl", Req::Command(idx.to_string().into_bytes()));
+            }
+            Ctl::DropOutput => {}
+        }
     }
 
     fn finished(&self) -> Option<Result<(), String>> {
